@@ -8,7 +8,7 @@
 (* Laws, for every k:                                                                      *)
 (*   Prefix   seen[k] is a prefix of pre[k]  (output is never revised or reordered later;  *)
 (*            that it is a prefix of the final output holds physically for a pipe)        *)
-(*   Lag      if line k is a hunk line or plain text: the rows of pre[k] not yet in seen[k] *)
+(*   Lag      if line k is a hunk line (or a commit line): the rows of pre[k] not yet in seen[k] *)
 (*            are only removed/added rows, at most B+1 of each                             *)
 EXTENDS Naturals, Sequences, FiniteSets, TLC, Json, IOUtils
 
@@ -17,7 +17,10 @@ VARIABLES l, failed
 vars == <<l, failed>>
 
 IsPrefix(a, b) == Len(a) <= Len(b) /\ \A i \in DOMAIN a : a[i][1] = b[i][1]
-Constrained == {"minus", "plus", "zero", "nonl", "other", "blank", "commit"}
+\* (the statement speaks of prefixes that end inside a hunk; after a commit line everything before it is out as
+\* well.  Free text or an empty line after a section whose header is still owed - a mode change waiting for its
+\* ---/+++ lines - says nothing: the header rightly waits for the next section or the end of input.)
+Constrained == {"minus", "plus", "zero", "nonl", "commit"}
 
 LagOK(e, k) ==
   LET held == SubSeq(e.pre[k], Len(e.seen[k]) + 1, Len(e.pre[k])) IN
